@@ -70,7 +70,9 @@ impl QueuingMetricSinkBuilder {
 
         spawn_worker_in_thread(worker.clone());
 
-        QueuingMetricSink { worker, sink }
+        let stopper = Arc::new(StopOnDrop { worker: worker.clone() });
+
+        QueuingMetricSink { worker, sink, stopper }
     }
 
     /// Set error handler called when the wrapped sink fails to emit a metric.
@@ -145,6 +147,10 @@ impl QueuingMetricSinkBuilder {
 pub struct QueuingMetricSink {
     worker: Arc<Worker>,
     sink: Arc<dyn MetricSink + Send + Sync + RefUnwindSafe>,
+    // Shared by all clones of this sink so that the worker is only told to
+    // stop when the last clone is destroyed.
+    #[allow(dead_code)]
+    stopper: Arc<StopOnDrop>,
 }
 
 impl fmt::Debug for QueuingMetricSink {
@@ -279,7 +285,13 @@ impl MetricSink for QueuingMetricSink {
     }
 }
 
-impl Drop for QueuingMetricSink {
+/// Guard shared by every clone of a `QueuingMetricSink` that stops the
+/// worker when the last clone is destroyed.
+struct StopOnDrop {
+    worker: Arc<Worker>,
+}
+
+impl Drop for StopOnDrop {
     /// Send the worker a signal to stop processing metrics.
     ///
     /// Note that this destructor only sends the worker thread a signal to
